@@ -83,29 +83,33 @@ def _name_of(fk: str) -> str:
     return fk.rsplit('/', 1)[-1] if '/' in fk else fk
 
 
+def _marked_key(c: dict) -> str:
+    """The id as the key-forming convention sees it: with the '-ofDRS' mark for ReplicaSets owned by Deployments."""
+    return st.safe(c['key'] + ('-ofDRS' if c.get('drs') else ''))
+
+
 def match_f2(f: dict) -> bool:
-    """F2: invalid only because of a non-alphanumeric first/last character inherited from the id."""
+    """F2: the name is invalid ONLY because its first character (= the safe first character of the id) or its last
+    character (= the safe last character of an un-hashed id) is not alphanumeric; length and charset are fine."""
     if f['sig'] != 'invalid-name':
         return False
     c = f['case']
     name = _name_of(f['observed'])
-    key = st.safe(c['key'])
-    if c['which'] == 'v1' and len(c['prefix']) + 1 + 7 >= 63:
-        return False
+    key = _marked_key(c)
     if len(name) > 63 or not name or not re.fullmatch(r'[-A-Za-z0-9_.]+', name):
         return False
-    first_bad = not name[0].isalnum() and name[0] == key[0]
-    last_bad = not name[-1].isalnum() and name[-1] == key[-1] and name == key[-len(name):]
-    middle_ok = True
-    return (first_bad or last_bad) and middle_ok
+    first_ok, last_ok = name[0].isalnum(), name[-1].isalnum()
+    first_bad = not first_ok and name[0] == key[0]
+    last_bad = not last_ok and name[-1] == key[-1] and name == key[-len(name):]
+    return (not first_ok or not last_ok) and (first_ok or first_bad) and (last_ok or last_bad)
 
 
 def match_f12(f: dict) -> bool:
-    """F12: v1 key with a prefix leaving no room for the hash suffix."""
+    """F12: v1 key with a prefix leaving no room for the hash suffix, and an id (with its '-ofDRS' mark, if any) that does not fit."""
     if f['sig'] != 'invalid-name':
         return False
     c = f['case']
-    return c['which'] == 'v1' and len(c['prefix']) + 1 + 7 >= 63 and len(st.safe(c['key'])) > 63 - len(c['prefix']) - 1
+    return c['which'] == 'v1' and len(c['prefix']) + 1 + 7 >= 63 and len(_marked_key(c)) > 63 - len(c['prefix']) - 1
 
 
 def run(ctx: fw.Ctx) -> int:
@@ -189,7 +193,7 @@ def run(ctx: fw.Ctx) -> int:
             for j, fk in enumerate(keys):
                 if not valid_name_part(fk):
                     ctx.fail('generated annotation name is not a valid Kubernetes name', {'prefix': ac['prefix'], 'v1': ac['v1'], 'key': key,
-                             'which': 'v2' if j == 0 else 'v1'}, observed=fk, sig='invalid-name')
+                             'which': 'v2' if j == 0 else 'v1', 'drs': drs == 'true'}, observed=fk, sig='invalid-name')
             if len(key) > 63:
                 long_pairs.append((key, keys[0]))
 
